@@ -237,7 +237,13 @@ class Proof:
                 if not set(names) <= got:
                     attempts[-1]['note'] = 'missing results'
                     continue
+                # unwinding assertions are generated during unwinding (they are not in --show-properties, so no group names them): a failed one
+                # means the bound cut paths off, and a SUCCESS for the requested obligations is then worth nothing -> undecided, never a verdict
+                cut = [r['name'] for r in res if re.search(r'\.unwind\.\d+$', r['name']) and r['res'] != 'SUCCESS']
                 res = [r for r in res if r['name'] in set(names)]
+                if cut and all(r['res'] == 'SUCCESS' for r in res):
+                    attempts[-1]['note'] = 'unwinding assertion failed (%s): the unwind bound is too small for this harness' % ', '.join(cut[:3])
+                    return dict(names=names, results=[], solver=None, time=sum(a['time'] for a in attempts), attempts=attempts, trace=None, decided=False)
                 trace = None
                 if any(r['res'] != 'SUCCESS' for r in res):
                     bad = [r['name'] for r in res if r['res'] != 'SUCCESS'][:1]
